@@ -2,8 +2,8 @@
 from pipeline import run_pipeline
 
 TIERS = {
-    "quick": dict(mc=[("MC_RtpsLink_q.cfg", 8), ("MC_RtpsLink_q_late.cfg", 8)], replay_limit=5000, random=dict(runs=320, events=24)),
-    "thorough": dict(mc=[("MC_RtpsLink_t.cfg", 12), ("MC_RtpsLink_t2.cfg", 12), ("MC_RtpsLink_q_late.cfg", 8), ("MC_RtpsLink_t_late.cfg", 12)], replay_limit=60000, random=dict(runs=4000, events=40)),
+    "quick": dict(mc=[("MC_RtpsLink_q.cfg", 8), ("MC_RtpsLink_q_late.cfg", 8), ("MC_RtpsLink_q_rematch.cfg", 8)], replay_limit=6000, random=dict(runs=320, events=24)),
+    "thorough": dict(mc=[("MC_RtpsLink_t.cfg", 12), ("MC_RtpsLink_t2.cfg", 12), ("MC_RtpsLink_q_late.cfg", 8), ("MC_RtpsLink_t_late.cfg", 12), ("MC_RtpsLink_q_rematch.cfg", 8)], replay_limit=60000, random=dict(runs=4000, events=40)),
 }
 ASSUME = [
     "state space bounded by the constants in spec/MC_RtpsLink_*.cfg (samples, fragments, fault budget, rounds)",
